@@ -269,6 +269,24 @@ func guardsOf(root ast.Node, target ast.Node) []guardAt {
 		if n == target {
 			found = true
 			for i := len(path) - 2; i >= 0; i-- {
+				// statements that follow `if c { ...; return }` run only when c is false
+				var list []ast.Stmt
+				switch l := path[i].(type) {
+				case *ast.BlockStmt:
+					list = l.List
+				case *ast.CaseClause:
+					list = l.Body
+				case *ast.CommClause:
+					list = l.Body
+				}
+				for _, sib := range list {
+					if ast.Node(sib) == path[i+1] {
+						break
+					}
+					if is, ok := sib.(*ast.IfStmt); ok && is.Else == nil && leavesBlock(is.Body) {
+						out = append(out, guardAt{is.Cond, false})
+					}
+				}
 				ifs, ok := path[i].(*ast.IfStmt)
 				if !ok {
 					continue
@@ -286,4 +304,25 @@ func guardsOf(root ast.Node, target ast.Node) []guardAt {
 		return true
 	})
 	return out
+}
+
+// leavesBlock: control does not fall out of the end of b (it ends in return, break, continue,
+// goto or panic).
+func leavesBlock(b *ast.BlockStmt) bool {
+	if b == nil || len(b.List) == 0 {
+		return false
+	}
+	switch x := b.List[len(b.List)-1].(type) {
+	case *ast.ReturnStmt:
+		return true
+	case *ast.BranchStmt:
+		return x.Tok == token.BREAK || x.Tok == token.CONTINUE || x.Tok == token.GOTO
+	case *ast.ExprStmt:
+		if c, ok := x.X.(*ast.CallExpr); ok {
+			if id, ok := c.Fun.(*ast.Ident); ok && id.Name == "panic" {
+				return true
+			}
+		}
+	}
+	return false
 }
